@@ -87,7 +87,9 @@ void run_c19(sim::RunCtx& ctx) {
     if (kind == S_SCHEMA) { ncols = 1 + (int)sim::draw(140); ctx.sample = sim::fmt("schema build with %d columns (+groups)", ncols); ctx.shape = sim::fnv(&ncols, 4) ^ 1; ctx.nontrivial = true; }
     else if (kind == S_WRITE) {
         gen::FlatOpts fo; fo.allow_big = false; fo.allow_wide = false; fo.max_cols = 5; fo.max_rgs = 2;
+        if (sim::draw(5) == 4) { fo.max_cols = 30; gen::g_row_cap = 12; }     // footers beyond one buffer growth step: allocation failures inside string payloads
         p = gen::gen_write_plan(fo);
+        if (sim::draw(4) == 3) p.created_by = std::string(3000 + sim::draw(6000), 'c');
         common::plan_tags_and_shape(ctx, p); ctx.shape ^= 2; ctx.sample = "write: " + p.describe();
     } else {
         validfile::Opts vo; vo.small = true;
@@ -118,7 +120,12 @@ void run_c19(sim::RunCtx& ctx) {
     { std::string what; SIM_CHECK(sim::ledger_leaks(&what) == 0, "resource.leak", "fault-free scenario leaks: %s", what.c_str()); }
     uint64_t evals = 0;
     std::vector<int64_t> sites;
-    if (multi) sites.push_back(-7); else { for (int64_t k = 0; k < K; k++) sites.push_back(k); for (int64_t j = 0; j < NF; j++) sites.push_back(SITE_FOPEN + j); if (vf.codec == 6 || p.codec == 6) sites.push_back(SITE_DCTX); }
+    // every request when K <= 800; beyond that the first and last 200 and an even sample of ~400 in the middle (keeps one scenario
+    // below a few seconds; the evidence counts how many scenarios were enumerated completely)
+    bool complete = K <= 800;
+    if (complete) SIM_COUNT("probe.scenario_enumerated_completely"); else SIM_COUNT("probe.scenario_sampled_beyond_800_sites");
+    if (multi) sites.push_back(-7); else { int64_t step = complete ? 1 : (K - 400) / 400 + 1;
+        for (int64_t k = 0; k < K; k++) if (complete || k < 200 || k >= K - 200 || (k - 200) % step == 0) sites.push_back(k); for (int64_t j = 0; j < NF; j++) sites.push_back(SITE_FOPEN + j); if (vf.codec == 6 || p.codec == 6) sites.push_back(SITE_DCTX); }
     for (int64_t site : sites) {
         if (ctx.focus >= 0 && !(ctx.focus == kind && ctx.focus2 == site)) continue;
         sim::set_focus(kind, site);
@@ -151,7 +158,7 @@ namespace sim {
 void register_c19() {
     Property p;
     p.id = "C19"; p.level = "fault_enumeration";
-    p.rule = "per seeded scenario (schema build with capacity growth; write of a small multi-type nullable table with a seeded history per codec, path or FILE*; open + metadata + whole-chunk reads + skip + statistics in fread/mmap/buffer on a peer- or carquet-written file; batch read in each transport) a fault-free dry run counts the K tracked allocation requests (carquet, zlib and zstd requests made inside API calls, numbered by the allocator ledger), then request k fails for EVERY k in 0..K-1, plus every fopen returning NULL and ZSTD_createDCtx returning NULL; thorough tier adds seeded multi-failure runs (each request fails with probability p); oracle per fault point: no sanitizer report, an error is reported by some call or else the effect equals the fault-free run (identical file bytes / identical values), data delivered before an error is a correct prefix, every handle can still be closed/freed/aborted, ledger empty; after the first error the writer is aborted (odd k) or closed (even k); one evaluation = one fault point";
+    p.rule = "per seeded scenario (schema build with capacity growth; write of a small multi-type nullable table with a seeded history per codec, path or FILE*; open + metadata + whole-chunk reads + skip + statistics in fread/mmap/buffer on a peer- or carquet-written file; batch read in each transport) a fault-free dry run counts the K tracked allocation requests (carquet, zlib and zstd requests made inside API calls, numbered by the allocator ledger), then request k fails for EVERY k in 0..K-1 (for K > 800: the first and last 200 and an even sample of about 400 in between), plus every fopen returning NULL and ZSTD_createDCtx returning NULL; thorough tier adds seeded multi-failure runs (each request fails with probability p); oracle per fault point: no sanitizer report, an error is reported by some call or else the effect equals the fault-free run (identical file bytes / identical values), data delivered before an error is a correct prefix, every handle can still be closed/freed/aborted, ledger empty; after the first error the writer is aborted (odd k) or closed (even k); one evaluation = one fault point";
     p.quick_runs = 4000; p.thorough_runs = 200000;
     p.run = run_c19; p.recheck = 128;
     p.assumptions = {"allocations made by a per-thread ZSTD decompression context (process lifetime) are not numbered fault sites; its creation is (ZSTD_createDCtx -> NULL)",
